@@ -3,6 +3,25 @@ From Coq Require Import List NArith ZArith Bool.
 From PyD Require Import Base.Str Model.Hier Model.Mrs Model.Convert Proofs.ConvertP.
 Import ListNotations.
 
+(* one node per predication, in order, carrying its predicate, constant and the
+   type and properties of its intrinsic variable; unique node identifiers *)
+Theorem C05_nodes : forall m pm uniq e, eds_from_mrs m pm uniq = COk e ->
+  exists ids, ep_ids (m_rels m) = Some ids /\
+    map (fun n => (en_pred n, en_carg n)) (e_nodes e) = map (fun x => (e_pred x, e_carg x)) (m_rels m) /\
+    (forall k n x, nth_error (e_nodes e) k = Some n -> nth_error (m_rels m) k = Some x ->
+       is_quant x = false -> forall v, e_iv x = Some v ->
+       en_type n = var_type v /\ en_props n = match dict_get v (m_vars m) with Some pr => pr | None => [] end) /\
+    (NoDup ids -> NoDup (map en_id (e_nodes e))).
+Proof. exact eds_nodes_spec. Qed.
+Print Assumptions C05_nodes.
+
+Theorem C05_renamed_ids_unique : forall eps nodes,
+  NoDup (map fst eps) -> map en_id nodes = map fst eps ->
+  nodupb (map snd (new_ids_of eps)) = true ->
+  NoDup (map en_id (rename_nodes (new_ids_of eps) nodes)).
+Proof. exact renamed_ids_unique. Qed.
+Print Assumptions C05_renamed_ids_unique.
+
 Theorem C05_ids_match_rels : forall rels ids, ep_ids rels = Some ids -> length ids = length rels.
 Proof. exact ep_ids_length. Qed.
 Print Assumptions C05_ids_match_rels.
